@@ -1101,9 +1101,11 @@ def main(ctx):
                     and 'site.change_charge(leg, perm_flat)' in e.get('tb', ''):
                 key = F121_KEY
                 nf121 += 1
-            if e['op'][0] == 'set_common' and e['op'][2] in ('sum', 'diff') and e['op'][4].get('mod') and e['error'] == 'ValueError' \
-                    and e['msg'].startswith('charges invalid for ChargeInfo') and 'in set_common_charges' in e.get('tb', ''):
-                key = F122_KEY          # explicit new_mod (and/or a negative factor): the new charges are not reduced modulo new_mod
+            if e['op'][0] in ('set_common', 'group', 'group_sites') and e['error'] == 'ValueError' and e['msg'].startswith('charges invalid for ChargeInfo') \
+                    and 'in set_common_charges' in e.get('tb', '') and 'LegCharge.from_qflat(new_chinfo, new_qflat' in e.get('tb', ''):
+                # the new charge values (explicit new_mod, a negative factor, or several charges of one site merged by name) are handed to
+                # LegCharge.from_qflat without being reduced modulo the new mod
+                key = F122_KEY
                 nf122 += 1
             ctx.fail('oracle', 'site-transforming call %s (step %d of %s on %s) raised %s: %s'
                      % (e['op'], e['step'], case['steps'], [s_[0] for s_ in case['sites']], e['error'], e['msg']),
@@ -1115,8 +1117,9 @@ def main(ctx):
                     and any('hc_ops mentions' in x and 'which is not an operator' in x for x in pr['probs']):
                 key = F123_KEY
                 nf123 += 1
-            ctx.fail('oracle', 'after %s (step %d) the site #%d = %s no longer is what the documentation says (read through its state labels): %s'
-                     % (pr['op'], pr['step'], pr['site'], pr['tag'], '; '.join(pr['probs'])),
+            ctx.fail('oracle', ('after %s (step %d) the site #%d = %s no longer is what the documentation says (read through its state labels): %s'
+                                % (pr['op'], pr['step'], pr['site'], pr['tag'], '; '.join(pr['probs']))) if pr['site'] >= 0 else
+                     ('%s (step %d on %s): %s' % (pr['op'], pr['step'], [s_[0] for s_ in case['sites']], '; '.join(pr['probs']))),
                      {'stream': 'book', 'case': {'sites': case['sites'], 'steps': case['steps'][:pr['step'] + 1], 'seed': case['seed']}},
                      match_key=key)
     hist['book_steps_applied'] = kinds
